@@ -43,7 +43,7 @@ FLOORS = {"quick": {k: 1 for k in [
     "honest_validated", "honest_absent_validated", "branch_refused_invalidkey", "corrupt_judged",
     "corrupt_not_validated", "corrupt_validated_truth", "kind_drop", "kind_flip", "kind_otherkey",
     "kind_sibling", "kind_trunc", "exist_checks", "exist_true", "exist_false", "trie_nodes_checks",
-    "witness_ok", "witness_refused", "witness_reads", "wrong_claims_rejected"]}}
+    "witness_ok", "witness_refused", "witness_reads", "wrong_claims_rejected", "partial_db_walks"]}}
 FLOORS["thorough"] = dict(FLOORS["quick"])
 
 
@@ -82,6 +82,14 @@ def run_case(case, ctx):
     shape = ref.shape()
     raw = db.raw()
 
+    # ---- a walk over a PARTIAL database first (a client that holds only the root node): it can
+    # only yield what that database holds, and must not influence later walks over the full one
+    if case.get("pseed", 0) % 2 == 0:
+        part = {root: raw[root]}
+        gp = cut(get_trie_nodes, part, root)
+        if not set(gp) <= {raw[root]}:
+            raise Violation("bin-trie-nodes", "get_trie_nodes over a database holding only the root node yields %d other node(s)" % len(set(gp) - {raw[root]}))
+        ctx.count("partial_db_walks")
     # ---- get_trie_nodes: exactly the nodes reachable from the root
     got = cut(get_trie_nodes, db, root)
     if set(got) != refnodes:
@@ -182,6 +190,23 @@ def run_case(case, ctx):
             ctx.count("witness_reads")
         ctx.count("witness_ok")
         ctx.evaluated()
+        # the witness database is partial: walking it yields only nodes it holds
+        gw = cut(get_trie_nodes, wdb, root)
+        if not set(gw) <= set(w):
+            raise Violation("bin-trie-nodes", "get_trie_nodes over the witness database of prefix %s yields nodes the witness does not contain" % hx(p))
+        ctx.count("partial_db_walks")
+    # ---- and again over the complete database, after all the partial walks and the sibling's
+    got = cut(get_trie_nodes, db, root)
+    if set(got) != refnodes:
+        raise Violation("bin-trie-nodes", "second get_trie_nodes (after walks over partial databases) returns %d distinct nodes, the canonical trie has %d (%d foreign, %d missing)" % (
+            len(set(got)), len(refnodes), len(set(got) - refnodes), len(refnodes - set(got))))
+    if mb:
+        refb = RefBin(mb)
+        gb = cut(get_trie_nodes, dbb, tb.root_hash)
+        if set(gb) != set(refb.nodes.values()):
+            raise Violation("bin-trie-nodes", "get_trie_nodes of the sibling trie returns %d distinct nodes, its canonical trie has %d" % (
+                len(set(gb)), len(set(refb.nodes.values()))))
+    ctx.count("trie_nodes_checks")
 
 
 def shrink(case, monitor):
